@@ -120,7 +120,7 @@ type Corruption struct {
 var ByzKinds = map[string][]string{
 	"headers":       {"break-link", "low-work", "timestamp-past", "extra-remaining", "empty-with-remaining", "duplicate", "wrong-type", "garbage", "close"},
 	"blocks":        {"other-branch", "body-swap", "drop-txns", "too-few", "too-many", "reorder", "wrong-type", "garbage", "close", "foreign-last"},
-	"checkpoint":    {"non-v2", "wrong-id", "state-field", "state-work", "recommit", "wrong-type", "garbage", "close", "two-payouts"},
+	"checkpoint":    {"non-v2", "wrong-id", "state-field", "state-work", "recommit", "wrong-type", "garbage", "close", "two-payouts", "payout-value", "v2-height"},
 	"relay-header":  {"low-work", "unknown-parent"},
 	"relay-outline": {"low-work", "invalid-child", "wrong-missing", "no-missing", "txn-altered", "unknown-parent"},
 	"relay-txset":   {"empty", "unknown-basis", "invalid"},
@@ -375,6 +375,24 @@ func (b *ByzPeer) Handle(id types.Specifier, s *gateway.Stream) {
 			blk.V2 = nil
 		case "two-payouts":
 			blk.MinerPayouts = append(blk.MinerPayouts, blk.MinerPayouts[0])
+		case "payout-value":
+			// genuine block and state, another payout value: neither the v2 id nor
+			// the commitment covers it (even arg: one hasting more, odd: a million
+			// siacoins more)
+			if len(blk.MinerPayouts) == 0 {
+				applied = false
+			} else if modn(b.Corr.Arg, 2) == 0 {
+				blk.MinerPayouts[0].Value = blk.MinerPayouts[0].Value.Add(types.NewCurrency64(1))
+			} else {
+				blk.MinerPayouts[0].Value = blk.MinerPayouts[0].Value.Add(types.Siacoins(1000000))
+			}
+		case "v2-height":
+			// the height field of the v2 data is not covered by the id either
+			if blk.V2 == nil {
+				applied = false
+			} else {
+				blk.V2.Height += 1 + uint64(modn(b.Corr.Arg, 3))
+			}
 		case "wrong-id":
 			other := c.At(uint64(1 + modn(b.Corr.Arg, int(c.Height()))))
 			if other.ID == blk.ID() {
